@@ -45,7 +45,10 @@ Definition inherent_fns (d : decl) : list fn_rec :=
   ((if has_validation d then
      [ mk "-" "T" "try_new" true false c RNone true true ["__sanitize__"; "__validate__"] FNone;
        mk "-" "T" "__sanitize__" false false c RNone false false [] FNone;
-       mk "-" "T" "__validate__" false false c RNone false false [] FNone ]
+       (* a regex literal is compiled by `::regex::Regex::new(..)` inside __validate__ *)
+       mk "-" "T" "__validate__" false false c RNone false false
+          (if existsb (fun v => match v with VRegex (RLit _) => true | _ => false end) (standard_validators d)
+           then ["new"] else []) FNone ]
    else
      [ mk "-" "T" "new" true false c RNone true true ["__sanitize__"] FNone;
        mk "-" "T" "__sanitize__" false false c RNone false false [] FNone ]) ++
